@@ -100,7 +100,7 @@ def check(ctx):
         var = [a.arg for a in fn.args.args if a.arg != "self"][0]
         iff = _chain(fn, var)
         if iff is None:
-            ctx.undecided("R-INTERVAL/bits", construct, where, "no if/elif chain over the bit index", key="chain")
+            _bits_by_abstract_evaluation(ctx, u32, name, fn, construct, where, summaries)
             continue
         try:
             regs, rest, els = _regions(repo, tm, iff, var)
@@ -379,3 +379,50 @@ def _time(ctx, repo, tm):
 
 def _mentions_attr(e, var):
     return any(isinstance(n, ast.Attribute) and isinstance(n.value, ast.Name) and n.value.id == var for n in ast.walk(e))
+
+
+def _bits_by_abstract_evaluation(ctx, u32, name, fn, construct, where, summaries):
+    """Fallback of clause 1: the accessor is not an if/elif chain.  Evaluate it abstractly for every bit index of a finite
+    range around [0, 32) with symbolic data octets (bsa.bitsem)."""
+    from ..bitsem import run, Unsupported, DATA0
+    summ = []
+    try:
+        for b in range(-9, 42):
+            outs = run(u32, fn, b)
+            inr = 0 <= b < 32
+            i, m = 3 - b // 8, 1 << (b % 8)
+            for ch, kind, val, data, qs in outs:
+                case = f"bit={b},choices={list(ch)}"
+                if not inr:
+                    ok = kind == "raise" and val == "DiameterTypeError"
+                    ctx.decide(ok, "R-DOM/bits-range", construct, where, "out-of-range index raises DiameterTypeError",
+                               f"bit index {b} is out of range but {name} ends with {kind} {val!r} "
+                               f"(reads/changes {qs or data}) instead of raising DiameterTypeError", key=f"range:{'neg' if b < 0 else 'high'}")
+                    continue
+                q_ok = bool(qs) and qs[0] == ("op", "&", i, m)
+                if name == "is_bit_set":
+                    ok = q_ok and len(qs) == 1 and kind == "return" and val is (ch[0] if ch else None) and data == DATA0
+                    ctx.decide(ok, "R-SIB/bits", construct, where, f"bit {b} tests octet {i} with mask {m:#04x}",
+                               f"is_bit_set({b}) tests {qs} and returns {val!r} for answer {list(ch)}: expected octet {i} & {m:#04x} != 0 "
+                               f"of the big-endian word", key=f"access:{b - b % 8}")
+                else:
+                    is_set = ch[0] if ch else None
+                    redundant = (name == "set_bit" and is_set) or (name == "unset_bit" and not is_set)
+                    if redundant:
+                        ok = q_ok and kind == "raise" and val == "DiameterTypeError"
+                        ctx.decide(ok, "R-DOM/bits-redundant", construct, where, "redundant operation raises DiameterTypeError",
+                                   f"{name}({b}) on a word whose bit is {'set' if is_set else 'clear'} ends with {kind} {val!r} "
+                                   f"instead of DiameterTypeError", key="redundant")
+                    else:
+                        want = list(DATA0)
+                        alts = [("op", "|", i, m)] if name == "set_bit" else [("op", "^", i, m), ("op", "&", i, 0xFF ^ m)]
+                        ok = q_ok and kind in ("return", "fall") and any(data == want[:i] + [a] + want[i + 1:] for a in alts)
+                        ctx.decide(ok, "R-SIB/bits", construct, where, f"bit {b}: only octet {i} changes, by mask {m:#04x}",
+                                   f"{name}({b}) leaves the data as {data}: expected only octet {i} combined with mask {m:#04x}",
+                                   key=f"access:{b - b % 8}")
+            if inr and b % 8 == 0:
+                summ.append((b, i))
+        summaries[name] = sorted(summ)
+    except Unsupported as e:
+        ctx.undecided("R-INTERVAL/bits", construct, where,
+                      f"accessor is neither an if/elif chain over the bit index nor abstractly evaluable ({e})", key="chain")
